@@ -179,6 +179,7 @@ type Chunk struct {
 	Entries [][]byte
 	HasNext bool
 	Next    string
+	Big     int // additional synthetic sha2-256 multihashes (a full-size chunk of an index provider is 16384 entries)
 }
 
 func GenChunk() *rapid.Generator[Chunk] {
@@ -188,6 +189,9 @@ func GenChunk() *rapid.Generator[Chunk] {
 		for i := 0; i < n; i++ {
 			c.Entries = append(c.Entries, gen.Multihash().Draw(t, "mh"))
 		}
+		if rapid.IntRange(0, 299).Draw(t, "bigchunk") == 171 { // rare (an interior value of the range)
+			c.Big = rapid.SampledFrom([]int{4096, 16384, 30000}).Draw(t, "big")
+		}
 		return c
 	})
 }
@@ -196,6 +200,10 @@ func (c Chunk) Build() *schema.EntryChunk {
 	ch := &schema.EntryChunk{}
 	for _, e := range c.Entries {
 		ch.Entries = append(ch.Entries, multihash.Multihash(e))
+	}
+	for i := 0; i < c.Big; i++ {
+		mh, _ := multihash.Sum([]byte{byte(i), byte(i >> 8), byte(i >> 16), 0x5c}, multihash.SHA2_256, -1)
+		ch.Entries = append(ch.Entries, mh)
 	}
 	if c.HasNext {
 		ch.Next = cidlink.Link{Cid: mustCid(c.Next)}
